@@ -16,7 +16,9 @@ import (
 	"mltwist/verifh/uichk"
 )
 
-func digitsOf(base int) string { return "0123456789abcdefABCDEF"[:map[int]int{2: 2, 8: 8, 10: 10, 16: 22}[base]] }
+func digitsOf(base int) string {
+	return "0123456789abcdefABCDEF"[:map[int]int{2: 2, 8: 8, 10: 10, 16: 22}[base]]
+}
 
 func parseDigits(s string, base int) (*big.Int, bool) {
 	if s == "" {
@@ -305,8 +307,8 @@ func min(a, b int) int {
 
 func main() {
 	mon.Main(mon.Spec{
-		Prop: "C30",
-		Rule: "case = token/line: literals in base 10/16/2/8 with 1..65 digits and both prefix spellings, boundary tokens (2^64-1 and 2^64 in every base, 0, 00, 08, bare prefixes, 0b2, 0xg), malformed tokens (one inserted '_', sign, space, letter), all kinds of one- and two-character tokens; value lines additionally with '-', '+', padding, underscores and empty, at widths 1..16 and 255, one line in 12 a value on the modulus (+-k*2^(8w), its neighbours, +-2^(8w-1)) in any base, one line in 25 being 4-20 thousand characters long (zero-padded prefixed literals, long decimals, some with an early junk character); non-trivial = accepted value, or address token that is not a plain multi-digit decimal; distinct by token",
+		Prop:        "C30",
+		Rule:        "case = token/line: literals in base 10/16/2/8 with 1..65 digits and both prefix spellings, boundary tokens (2^64-1 and 2^64 in every base, 0, 00, 08, bare prefixes, 0b2, 0xg), malformed tokens (one inserted '_', sign, space, letter), all kinds of one- and two-character tokens; value lines additionally with '-', '+', padding, underscores and empty, at widths 1..16 and 255, one line in 12 a value on the modulus (+-k*2^(8w), its neighbours, +-2^(8w-1)) in any base, one line in 25 being 4-20 thousand characters long (zero-padded prefixed literals, long decimals, some with an early junk character); non-trivial = accepted value, or address token that is not a plain multi-digit decimal; distinct by token",
 		Explanation: "oracle: an independent literal parser: an address token of one of the four stated forms must give exactly its value (< 2^64), every other token must be answered with an error, never a panic; a typed value with optional '-' must become the integer modulo 2^(8w) as a w-byte constant and consume exactly one line; empty lines, underscores and malformed numbers must be rejected; '+'-prefixed and whitespace-padded lines are checked for no-crash only",
 		Assumptions: []string{"parseAddr and readValue reached through verif hooks; the line is fed through the replaced line reader"},
 		Cases: func(t string) int {
